@@ -918,9 +918,11 @@ impl Compactor {
 
         // Delete from object storage
         let mut failures = 0u64;
+        let mut removed: Vec<String> = Vec::with_capacity(chunks_to_delete.len());
         for path in &chunks_to_delete {
             match self.object_store.delete(&path.clone().into()).await {
-                Ok(_) => {
+                Ok(_) | Err(object_store::Error::NotFound { .. }) => {
+                    removed.push(path.clone());
                     debug!(path = %path, "Deleted chunk from object storage");
                     counter!(
                         "cardinalsin_compaction_gc_deletions_total",
@@ -932,7 +934,7 @@ impl Compactor {
                     .increment(1);
                 }
                 Err(e) => {
-                    // Log error but continue - chunk may already be deleted
+                    // Log error but continue - the entry stays pending and is retried next cycle
                     warn!(path = %path, error = %e, "Failed to delete chunk");
                     failures += 1;
                     counter!(
@@ -947,16 +949,13 @@ impl Compactor {
             }
         }
 
-        // Remove from pending deletions
+        // Remove from pending deletions what is gone from object storage
         {
             let mut pending = self.pending_deletions.write().unwrap();
-            pending.retain(|entry| !chunks_to_delete.contains(&entry.path));
+            pending.retain(|entry| !removed.contains(&entry.path));
         }
 
-        info!(
-            deleted = chunks_to_delete.len(),
-            "Garbage collection completed"
-        );
+        info!(deleted = removed.len(), "Garbage collection completed");
         histogram!(
             "cardinalsin_compaction_gc_duration_seconds",
             "service" => crate::telemetry::service(),
